@@ -16,6 +16,7 @@ import (
 	"runtime"
 	"sort"
 	"strings"
+	"sync"
 	"testing"
 	"time"
 
@@ -23,8 +24,10 @@ import (
 	"github.com/anjor/carlet"
 	"github.com/gagliardetto/solana-go"
 	"github.com/ipfs/go-cid"
+	"github.com/rpcpool/yellowstone-faithful/accum"
 	"github.com/rpcpool/yellowstone-faithful/blocktimeindex"
 	"github.com/rpcpool/yellowstone-faithful/bucketteer"
+	"github.com/rpcpool/yellowstone-faithful/carreader"
 	"github.com/rpcpool/yellowstone-faithful/compactindexsized"
 	deprecatedbucketteer "github.com/rpcpool/yellowstone-faithful/deprecated/bucketteer"
 	"github.com/rpcpool/yellowstone-faithful/deprecated/compactindex"
@@ -33,6 +36,7 @@ import (
 	hugecache "github.com/rpcpool/yellowstone-faithful/huge-cache"
 	"github.com/rpcpool/yellowstone-faithful/indexes"
 	"github.com/rpcpool/yellowstone-faithful/indexmeta"
+	"github.com/rpcpool/yellowstone-faithful/iplddecoders"
 	splitcarfetcher "github.com/rpcpool/yellowstone-faithful/split-car-fetcher"
 	"github.com/rpcpool/yellowstone-faithful/zzverif/cargen"
 	"github.com/rpcpool/yellowstone-faithful/zzverif/vkit"
@@ -53,6 +57,7 @@ const c13Rule = "case = (file kind, access path, cut offset c = number of leadin
 	"really truncated copies through indexes.Open_* (os.File), bucketteer.Open (mmap), blocktimeindex.FromFile, gsfa.NewGsfaReader (directory), carv2 local CAR and NewEpochFromConfig (every index role), plus JSON-RPC getBlock/getTransaction/getSignaturesForAddress/getBlockTime through the real handler with one and with two epochs loaded. " +
 	"Cuts: EVERY offset 0..size for files <= 64 KiB (all compact indexes, the three gsfa files, the CAR and each split piece); sig-exists: every offset of the body for lookups on a reader whose open was verified to touch only the header, and a full re-open at every offset within +-2 of each structure boundary (header fields, the prefix-table entry and the bucket of every stored signature) plus every 97th offset (thorough: every offset); " +
 	"slot-to-blocktime: +-2 around every header field, every stored slot's value and the end, plus every 97th offset (thorough: every 7th for the full parse, every offset for the epoch loader's exact-size read). " +
+	"Sequential traversal of the CAR (the section reader's three iteration calls and the object accumulator) at every cut that is not a section boundary: it must end in an error, not in a clean end after fewer objects. " +
 	"Keys: every object CID, every slot with a block, every signature, every address, plus the metadata (epoch, root CID, network, kind) as an extra key of 'open'. " +
 	"Oracle: open or lookup on the cut file = the complete file's answer, or an error that is not (and does not wrap) a 'not found' error; has=false, zero block time, empty list, null/empty JSON result, a not-found JSON-RPC error or any other value is a violation; panics are recovered and reported separately. " +
 	"Non-trivial = at least one byte is missing (c < size)."
@@ -1578,6 +1583,77 @@ func (r *c13Run) sectionCar(w *c13World) {
 		}
 		ep.remoteCarReader = nil
 		ep.Close()
+	}
+	// (d) sequential traversal (what every index builder does with the CAR): the section reader and the object
+	// accumulator over the CAR cut at every offset that is not a section boundary (a CAR cut at a boundary is a
+	// shorter well-formed CAR, which no reader can tell from a complete one). The traversal of the complete file
+	// ends cleanly after all objects; on the cut file it must end in an error, not in a clean end after fewer objects.
+	{
+		boundary := map[int]bool{int(t.HeaderLen): true, size: true}
+		for _, o := range t.Objects {
+			boundary[int(o.Offset+o.SectionLen)] = true
+		}
+		ref := fmt.Sprintf("clean end after %d objects", len(t.Objects))
+		walk := func(in []byte, step func(cr *carreader.CarReader) error) (string, error) {
+			cr, err := carreader.New(io.NopCloser(bytes.NewReader(in)))
+			if err != nil {
+				return "", err
+			}
+			for n := 0; ; n++ {
+				if err := step(cr); err != nil {
+					if errors.Is(err, io.EOF) {
+						return fmt.Sprintf("clean end after %d objects", n), nil
+					}
+					return "", err
+				}
+				if n > len(in) {
+					return "", errors.New("more sections than bytes")
+				}
+			}
+		}
+		for _, cut := range c13AllCuts(size, false) {
+			if boundary[cut] || cut < int(t.HeaderLen) {
+				continue
+			}
+			if !r.take("car-traversal", "car", cut) {
+				continue
+			}
+			in := t.Bytes[:cut]
+			region := c13RegionOf(regs, cut)
+			cs := c13Case{Section: "car-traversal", File: "car", Cut: cut, Key: "<all sections>", Size: size}
+			r.judge(cs, "carreader.NextNodeBytes-loop", region, ref, c13Do(func() (string, error) {
+				return walk(in, func(cr *carreader.CarReader) error { _, _, _, err := cr.NextNodeBytes(); return err })
+			}))
+			r.judge(cs, "carreader.NextNode-loop", region, ref, c13Do(func() (string, error) {
+				return walk(in, func(cr *carreader.CarReader) error { _, _, _, err := cr.NextNode(); return err })
+			}))
+			r.judge(cs, "carreader.NextInfo-loop", region, ref, c13Do(func() (string, error) {
+				return walk(in, func(cr *carreader.CarReader) error { _, _, err := cr.NextInfo(); return err })
+			}))
+			r.judge(cs, "accum.ObjectAccumulator.Run", region, ref, c13Do(func() (string, error) {
+				cr, err := carreader.New(io.NopCloser(bytes.NewReader(in)))
+				if err != nil {
+					return "", err
+				}
+				var mu sync.Mutex
+				n := 0
+				oa := accum.NewObjectAccumulator(cr, iplddecoders.KindBlock, func(parent *accum.ObjectWithMetadata, children []accum.ObjectWithMetadata) error {
+					mu.Lock()
+					defer mu.Unlock()
+					n += len(children)
+					if parent != nil {
+						n++
+					}
+					return nil
+				})
+				if err := oa.Run(context.Background()); err != nil {
+					return "", err
+				}
+				mu.Lock()
+				defer mu.Unlock()
+				return fmt.Sprintf("clean end after %d objects", n), nil
+			}))
+		}
 	}
 }
 
